@@ -11,7 +11,7 @@ for sd in $SEEDS; do
   if ! grep -q "\"property_id\": \"$ID\"" MANIFEST.json || ! jq -e ".checks[] | select(.property_id==\"$ID\")" MANIFEST.json >/dev/null; then echo "$sd not-claimed -"; continue; fi
   S=$(mktemp -d /var/tmp/sm.XXXXXX)
   mkdir -p $S/src && cp -r /repo/src/fdtdx $S/src/
-  if ! patch -s -p1 -d $S < $P >/dev/null 2>&1; then echo "$sd patch-does-not-apply -"; rm -rf $S; continue; fi
+  if ! patch -s -p1 -F0 -d $S < $P >/dev/null 2>&1; then echo "$sd patch-does-not-apply -"; rm -rf $S; continue; fi
   OUT=$(VERIF_EVIDENCE_DIR=$S/ev ./check $ID --repo $S 2>&1); RC=$?
   RULE=$(echo "$OUT" | grep -m1 -E "^  rule " | sed -E 's/^  rule ([^ ]+) @ ([^:]*).*/\1 @ \2/' | cut -c1-110)
   [ $RC -eq 2 ] && RULE=$(echo "$OUT" | grep -m1 ANALYSIS-ERROR | cut -c1-110)
